@@ -29,6 +29,9 @@ type iterCase struct {
 	// after the iteration every host is removed from the service (zero nodes): any cursor is past the last node then.
 	// With Nodes empty the service never had a host.
 	RemoveAll bool `json:"remove_all,omitempty"`
+	// Busy: the set of nodes stays what it is, but the proxy is not idle between two SCAN calls: the slot table is refreshed
+	// (successfully) at least once between any two calls, and a second connection sends keyed commands all the time.
+	Busy bool `json:"busy,omitempty"`
 }
 
 var terminal = ref.ArrV(ref.BulkS("0"), ref.ArrV())
@@ -98,7 +101,12 @@ func checkIter(c iterCase) (nt bool, v *verdict) {
 		w.Nodes[i].ScanPages = pages
 		w.Unlock()
 	}
-	defer sim.ProductionRefreshRate()() // stable layout: see the function
+	if c.Busy {
+		of, om := sim.SetRefreshTimers(2*time.Millisecond, time.Millisecond)
+		defer sim.SetRefreshTimers(of, om)
+	} else {
+		defer sim.ProductionRefreshRate()() // stable layout: see the function
+	}
 	px, err := sim.StartProxy(sim.ProxyOpts{Seeds: w.Addrs(w.Masters())})
 	if err != nil {
 		return nt, &verdict{"proxy-start", err.Error()}
@@ -117,6 +125,27 @@ func checkIter(c iterCase) (nt bool, v *verdict) {
 	}
 	if c.Count > 0 {
 		extra = append(extra, "COUNT", strconv.Itoa(c.Count))
+	}
+	if c.Busy {
+		bg, err := sim.Dial(px.Addr)
+		if err != nil {
+			return nt, &verdict{"client-dial", err.Error()}
+		}
+		stopBg, bgDone := make(chan struct{}), make(chan struct{})
+		go func() {
+			defer close(bgDone)
+			for i := 0; ; i++ {
+				select {
+				case <-stopBg:
+					return
+				default:
+				}
+				if _, err := bg.Do(20*time.Second, "GET", fmt.Sprintf("bg:%d", i%97)); err != nil {
+					return
+				}
+			}
+		}()
+		defer func() { close(stopBg); <-bgDone; bg.Close() }()
 	}
 	cursor := "0"
 	returned := map[string]int{}
@@ -141,6 +170,13 @@ func checkIter(c iterCase) (nt bool, v *verdict) {
 		cursor = string(r.A[0].S)
 		if cursor == "0" {
 			break
+		}
+		if c.Busy {
+			// at least one complete slot refresh between this call and the next one
+			s0 := px.Counter("upstream.slots_refresh.success_total")
+			for dl := time.Now().Add(2 * time.Second); px.Counter("upstream.slots_refresh.success_total") < s0+2 && time.Now().Before(dl); {
+				time.Sleep(200 * time.Microsecond)
+			}
 		}
 	}
 	for k := range stored {
@@ -213,7 +249,7 @@ func checkIter(c iterCase) (nt bool, v *verdict) {
 }
 
 func genIter(t *rapid.T) iterCase {
-	c := iterCase{RemoveAll: rapid.IntRange(0, 3).Draw(t, "removeall") == 0}
+	c := iterCase{RemoveAll: rapid.IntRange(0, 3).Draw(t, "removeall") == 0, Busy: rapid.IntRange(0, 2).Draw(t, "busy") == 0}
 	n := rapid.IntRange(0, 6).Draw(t, "nodes")
 	kid := 0
 	for i := 0; i < n; i++ {
@@ -267,6 +303,9 @@ func TestIteration(t *testing.T) {
 			vh.Fail(t, vh.Failure{Property: prop, Part: "iteration", Signature: v.sig, Message: v.msg, Case: c})
 		}
 		vh.Rec().Case("iteration", nt, vh.JSON(c))
+		if c.Busy && len(c.Nodes) >= 2 {
+			vh.Rec().Class("iteration", "slot_refresh_and_traffic_between_scan_calls")
+		}
 		vh.Rec().Sample("iteration", nt, func() interface{} { return c })
 	})
 }
